@@ -132,6 +132,7 @@ ReqOf(ev) ==
   (CASE ev.op = "Cert" -> ReqCertEv(ev)
      [] ev.op = "Csr" -> ReqCsrEv(ev)
      [] ev.op = "Crl" -> ReqCrlEv(ev)
+     [] ev.op = "RevocationCheck" -> ReqRevocation(ev.args, ev.obs)
      [] ev.op = "CsrParse" -> ReqCsrParse(ev.args, ev.out, ev.obs)
      [] ev.op = "CsrIssue" -> ReqCsrIssue(ev.args, ev.out, ev.obs)
      [] ev.op = "Validate" ->
